@@ -316,8 +316,13 @@ def plan_from_spec(spec) -> Plan:
             if t == "missing":
                 raise Unsupported("input without type")
             c = spec["consts"].get(nm)
+            dflt = (spec.get("_defaults") or {}).get(nm) if c is None else None
             try:
-                var = make_var(t, c, spec.get("const_via", "initializer"), spec["v"])
+                if dflt is not None:
+                    from spox._graph import arguments as _arguments
+                    (var,) = _arguments(**{"dflt": dflt})
+                else:
+                    var = make_var(t, c, spec.get("const_via", "initializer"), spec["v"])
             except Exception as e:  # noqa: BLE001
                 raise Unsupported(f"cannot make input Var: {type(e).__name__}: {e}") from e
             vid = len(vars_)
@@ -500,7 +505,8 @@ def mutate(rng, spec, ci, force_kind=None):
     n = s["node"]
     names = [x for x in dict.fromkeys(n.input) if x]
     kinds = ["elem", "rank", "dim-unknown", "dim-symbolic", "rank-unknown", "untyped", "drop-optional", "dup-optional",
-             "same-var", "attr-perturb", "attr-remove", "attr-explicit-default", "attr-empty-list", "const-one", "const-all", "variadic-len"]
+             "same-var", "attr-perturb", "attr-remove", "attr-explicit-default", "attr-empty-list", "const-one", "const-all", "variadic-len",
+             "default-one"]
     kind = force_kind or rng.choice(kinds)
     s["mut"] = kind
     s["base_other_schema"] = spec.get("mut") == "other-schema" or spec.get("base_other_schema", False)
@@ -659,6 +665,18 @@ def mutate(rng, spec, ci, force_kind=None):
             s["consts"][x] = data[x]
         s["const_via"] = rng.choice(["initializer", "constant"])
         s["mut"] = f"{kind}:{','.join(chosen)}:{s['const_via']}"
+        return s
+    if kind == "default-one":
+        # the operand is a DEFAULT-VALUED model input (arguments(name=<array>): an input with an initializer, which the caller may
+        # override): its default is NOT a known constant - the reference node sees a plain typed input
+        data = spec.get("_data") or {}
+        cand = [x for x in names if x in data and data[x].size <= 4096 and data[x].dtype != object and L.tspec_of_array(data[x]) == s["intypes"].get(x)
+                and x not in s["consts"]]
+        if not cand:
+            return None
+        x = rng.choice(cand)
+        s["_defaults"] = {x: data[x]}
+        s["mut"] = f"default-one:{x}"
         return s
     if kind == "variadic-len":
         if not ci.in_slots or ci.in_slots[-1][1] != "VARIADIC":
